@@ -154,7 +154,8 @@ Fixpoint rt_ready mb (tab : list (list byte * string)) (st : bst mb) (es : list 
   | e :: r =>
       let '(st', o) := bexec mb tab st e in
       (match o with
-       | OM (MText _) => ready mb (List.length (inodes (Conc mb) (fsys mb st'))) (fsys mb st') root_id
+       | OM (MText _) => deep_ok mb (List.length (inodes (Conc mb) (fsys mb st))) (fsys mb st) root_id
+                         && ready mb (List.length (inodes (Conc mb) (fsys mb st'))) (fsys mb st') root_id
                          && in_tab_b tab (blocks mb st')
        | _ => true
        end) && rt_ready mb tab st' r
